@@ -302,7 +302,44 @@ func C16(c *vk.Ctx) {
 				HubCfg{Mode: "prefer_ocsp", Sig: sig, Strict: false, Fetch: "actively", Disk: true, TrustA: false, Conf: "none", Ocsp: "good"})
 		}
 	}
-	hubCampaign(c, cfgs, c.Pick(1500, 40000), c.Pick(1, 10), 60, predC16)
+	hubCampaign(c, cfgs, c.Pick(1200, 40000), c.Pick(1, 10), 60, predC16)
+	// restarts that change the policy options (a reload with a stricter mode or without the trusted signer): what the
+	// previous run left on disk must be judged by the new configuration
+	families := [][]HubCfg{
+		{{Mode: "crl_only", Sig: "none", Strict: true, Fetch: "actively", Disk: true, TrustA: false, Conf: "none", Ocsp: "noaia"},
+			{Mode: "crl_only", Sig: "verify", Strict: true, Fetch: "actively", Disk: true, TrustA: false, Conf: "none", Ocsp: "noaia"}},
+		{{Mode: "crl_only", Sig: "verify_log", Strict: false, Fetch: "actively", Disk: true, TrustA: false, Conf: "url", Ocsp: "noaia"},
+			{Mode: "crl_only", Sig: "verify", Strict: false, Fetch: "actively", Disk: true, TrustA: true, Conf: "url", Ocsp: "noaia"}},
+		{{Mode: "crl_only", Sig: "verify", Strict: true, Fetch: "actively", Disk: true, TrustA: true, Conf: "file", Ocsp: "noaia"},
+			{Mode: "crl_only", Sig: "verify", Strict: true, Fetch: "actively", Disk: true, TrustA: false, Conf: "file", Ocsp: "noaia"}},
+	}
+	rng := rand.New(rand.NewSource(c.Seed + 16))
+	for fi, fam := range families {
+		g, res := exportHubFamily(c, fam)
+		c.Add("states", res.Distinct)
+		c.Add("transitions", int64(len(g.Edges)))
+		pg := pruneDown(g, 0, rng)
+		tour := pg.Tour(50, rng)
+		rng.Shuffle(len(tour), func(i, j int) { tour[i], tour[j] = tour[j], tour[i] })
+		used := 0
+		for wi, w := range tour {
+			if used >= c.Pick(500, 20000) || c.Violations() > 6 {
+				break
+			}
+			// only walks that actually restart are interesting here
+			restarts := false
+			for _, e := range w {
+				if opName(e) == "cleanup" {
+					restarts = true
+				}
+			}
+			if !restarts {
+				continue
+			}
+			used += runHubWalk(c, fam[0], w, RandomShape(rng), c.Seed*7000+int64(fi*1000+wi), predC16)
+			c.Add("traces_validated_against_impl", 1)
+		}
+	}
 	c.Set("spec", "Revocation.tla: VerifyNeverInForce (invariant), LenientRefreshWorks (action property), PolicyAccepts used by every intake action with the context table of DESIGN 3.4")
 	c.Set("rule", "as C01; intake paths: provision-time configured CRL (url/file), first CDP fetch, background load, refresh, each also after restart; signer status: resolvable (A in chain / trusted), unknown (sibling key S, foreign CA B), wrong; predicates compare the real verdict with what the policy ghost demands per signature mode")
 }
